@@ -61,6 +61,10 @@ DOCS = [
     "Yes. The quick brown fox jumps over the lazy dog while the cat watches from the window sill and the birds sing.\n",          # 22
     "Yes, that is certainly the case here. The quick brown fox jumps over the lazy dog while the cat watches from the window sill and the birds sing.\n",   # 23
     "- The quick brown fox jumps over the lazy dog while the cat watches from the window sill and the birds sing.\n",           # 24
+    # appended later: inline links with an EMPTY destination (the one place where a label is still looked up by target), next to
+    # definitions of the same labels with other targets
+    "See the [docs] and [the guide][guide], and [the draft]().\n\n[docs]: <>\n[guide]: https://one.example/guide \"Guide\"\n",   # 25
+    "See the [docs] and [the old site]() and ![]().\n\n[docs]: https://two.example/docs\n[guide]: https://two.example/guide\n",   # 26
 ]
 OPTS = [dict(width=88, semantic=False, cleanups=False), dict(width=20, semantic=True, cleanups=True, smartquotes=True, ellipses=True),
         dict(width=10, semantic=False, cleanups=False, list_spacing="loose"), dict(width=40, plaintext=True),
